@@ -282,7 +282,7 @@ theorem Bucket.lookUp_write_same_other (b : Bucket) (r : Nat) (k k' : Sig) (e : 
 /-- Other keys when lane `r` is replaced by a fresh key: every key other than the one that sat in
     lane `r` keeps its answer; the non-zero key that sat there disappears (needs `NoDupSig`). -/
 theorem Bucket.lookUp_write_fresh_other (b : Bucket) (r : Nat) (k k' : Sig) (e : Entry) (hr : r < 4)
-    (hm : match64 b.pKeys k = none) (hne : k' ≠ k) (hnd : NoDupSig b) :
+    (_hm : match64 b.pKeys k = none) (hne : k' ≠ k) (hnd : NoDupSig b) :
     (k' ≠ b.sig r → (b.write r k e).lookUp k' = b.lookUp k') ∧
     (k' = b.sig r → k' ≠ 0 → (b.write r k e).lookUp k' = none) := by
   have hsig : ∀ i, i < 4 → (b.write r k e).sig i = if i = r then k else b.sig i :=
